@@ -407,7 +407,7 @@ def all_programs(exe, d, tier):
     tiny, r1 = tiny_programs(3, 1)
     tl = [r1]
     if thorough:
-        t4, r2 = tiny_programs(4, 40, mink=4)
+        t4, r2 = tiny_programs(4, 10, mink=4)
         tiny += t4
         tl.append(r2)
     rnd = random_programs(1500 if thorough else 220, vlib.seed())
@@ -491,8 +491,9 @@ def run(tier):
     # anti-vacuity: every kind of outcome must occur
     accepted = [r for r in rows if r["verdict"] == "ok" and r["codegen"] == "ok"]
     rejected = [r for r in rows if r["verdict"] == "err"]
+    vacuous = None
     if len(accepted) < 500 or len(rejected) < 50:
-        raise vlib.ToolError("vacuous run: %d accepted, %d rejected programs (%s)" % (len(accepted), len(rejected), stages))
+        vacuous = "vacuous run: %d accepted, %d rejected programs (%s)" % (len(accepted), len(rejected), stages)
     feats = {
         "handoff-inserted": sum(1 for r in accepted if len(r["P"]["nodes"]) > len(r["G1"]["nodes"])),
         "delay-marked": sum(1 for r in accepted if any(n["delay"] for n in r["P"]["nodes"])),
@@ -506,41 +507,48 @@ def run(tier):
         "cycle-with-delay-accepted": sum(1 for r in accepted if any(e["delay"] for e in r["G1"]["edges"])),
     }
     empty = [k for k, v in feats.items() if v == 0]
-    if empty:
-        raise vlib.ToolError("vacuous run: features never exercised: %s" % empty)
+    if empty and not vacuous:
+        vacuous = "vacuous run: features never exercised: %s" % empty
 
     viol, drift = evaluate(rows, d, "all", list(res.values()), chunks=8 if thorough else 6)
+    known = {(k["property"], k["fingerprint"]) for k in vlib.load_known().get("findings", [])}
+    fresh = [v for v in viol if (v[1].split(":", 1)[0], fingerprint(v[1], next((r for r in rows if r["id"] == v[0]), {}))) not in known]
+    # a run that exercised too little is a tool error -- unless the real code already misbehaved in a way
+    # that is not a listed finding (then the shortfall is a symptom and the violations are reported)
+    if vacuous and not fresh:
+        raise vlib.ToolError(vacuous)
 
     # canary: corrupt good records; the spec must flag each
     good = [r for r in accepted if len(r["P"]["sgs"]) >= 2 and len(r["P"]["nodes"]) > len(r["G1"]["nodes"])
             and not any(e["delay"] for e in r["P"]["edges"]) and not r["P"]["loops"]]
-    if not good:
+    if (not good or not rejected) and not fresh:
         raise vlib.ToolError("no record suitable for the canary")
-    can = []
-    c1 = json.loads(json.dumps(good[0]))
-    c1["id"] = "canary/reversed-toposort"
-    c1["P"]["topo"] = list(reversed(c1["P"]["topo"]))
-    c1["P2"]["topo"] = list(c1["P"]["topo"])
-    can.append(c1)
-    c2 = json.loads(json.dumps(rejected[0]))
-    c2["id"] = "canary/rejected-flipped-to-accepted"
-    c2["verdict"] = "ok"
-    c2["codegen"] = "err"
-    c2["serde"] = "ok"
-    can.append(c2)
-    c3 = json.loads(json.dumps(good[0]))
-    c3["id"] = "canary/serde-dropped-edge"
-    c3["P2"]["edges"] = c3["P2"]["edges"][1:]
-    can.append(c3)
-    tmp = [vlib.PropResult("C18")]
-    cviol, _ = evaluate(can, d, "canary", tmp, chunks=1)
-    cv = {}
-    for i, rule in cviol:
-        cv.setdefault(i, []).append(rule)
-    if not any(x.startswith("C18:order-") for x in cv.get("canary/reversed-toposort", [])) \
-            or not any(x.startswith("C19:accepted-a-graph-with-a-same-tick-cycle") for x in cv.get("canary/rejected-flipped-to-accepted", [])) \
-            or "C20:json-round-trip-changed-the-port-wiring" not in cv.get("canary/serde-dropped-edge", []):
-        raise vlib.ToolError("canaries not rejected by Partition.tla: %s" % cv)
+    if good and rejected:
+        can = []
+        c1 = json.loads(json.dumps(good[0]))
+        c1["id"] = "canary/reversed-toposort"
+        c1["P"]["topo"] = list(reversed(c1["P"]["topo"]))
+        c1["P2"]["topo"] = list(c1["P"]["topo"])
+        can.append(c1)
+        c2 = json.loads(json.dumps(rejected[0]))
+        c2["id"] = "canary/rejected-flipped-to-accepted"
+        c2["verdict"] = "ok"
+        c2["codegen"] = "err"
+        c2["serde"] = "ok"
+        can.append(c2)
+        c3 = json.loads(json.dumps(good[0]))
+        c3["id"] = "canary/serde-dropped-edge"
+        c3["P2"]["edges"] = c3["P2"]["edges"][1:]
+        can.append(c3)
+        tmp = [vlib.PropResult("C18")]
+        cviol, _ = evaluate(can, d, "canary", tmp, chunks=1)
+        cv = {}
+        for i, rule in cviol:
+            cv.setdefault(i, []).append(rule)
+        if not any(x.startswith("C18:order-") for x in cv.get("canary/reversed-toposort", [])) \
+                or not any(x.startswith("C19:accepted-a-graph-with-a-same-tick-cycle") for x in cv.get("canary/rejected-flipped-to-accepted", [])) \
+                or "C20:json-round-trip-changed-the-port-wiring" not in cv.get("canary/serde-dropped-edge", []):
+            raise vlib.ToolError("canaries not rejected by Partition.tla: %s" % cv)
 
     # distribute
     checked = {"C18": accepted,
